@@ -353,11 +353,14 @@ func Table(payload uint32) []*Method {
 		Wire: func(e *Env, a, r V) []refcodec.Msg {
 			return []refcodec.Msg{msg(refcodec.Tlock, e.Fid, a[1], a[2], a[3], a[4], uint64(uint32(a[0].(int64))), a[5])}
 		},
-		Backend:  simpleBackend("Lock", []string{"pid", "type", "flags", "start", "length", "client"}, func(e *Env, a V) V { return V{a[0], a[1], a[2], a[3], a[4], a[5]} }),
-		Primary:  "Lock",
-		Override: func(e *Env, a, r V) *memfs.Override { st := p9.LockStatus(U(r[0])); return &memfs.Override{Status: &st} },
-		Reply:    func(e *Env, a, r V) refcodec.Msg { return msg(refcodec.Rlock, r[0]) },
-		Want:     func(e *Env, a, r V) []V { return one(r) },
+		Backend: simpleBackend("Lock", []string{"pid", "type", "flags", "start", "length", "client"}, func(e *Env, a V) V { return V{a[0], a[1], a[2], a[3], a[4], a[5]} }),
+		Primary: "Lock",
+		Override: func(e *Env, a, r V) *memfs.Override {
+			st := p9.LockStatus(U(r[0]))
+			return &memfs.Override{Status: &st}
+		},
+		Reply: func(e *Env, a, r V) refcodec.Msg { return msg(refcodec.Rlock, r[0]) },
+		Want:  func(e *Env, a, r V) []V { return one(r) },
 	})
 
 	// Remove --------------------------------------------------------------
@@ -972,6 +975,28 @@ func CheckBackend(exp []ExpCall, calls []*memfs.Call) []Issue {
 		is = append(is, Issue{"backend-unexpected-call", c.Method, fmt.Sprintf("unexpected backend call %s%s on handle %d (%s)", c.Method, Show(c.Names), c.Handle, c.Path)})
 	}
 	for ; next < len(exp); next++ {
+		// a call of that method that was passed over as the server's own
+		// business (attribute lookup, release) but differs from what the
+		// caller asked for tells more than "not reached"
+		var near *Issue
+		for _, c := range calls {
+			if c.Method != exp[next].Method {
+				continue
+			}
+			if _, field, detail := matchCall(exp[next], c); field != "" {
+				clause := "backend-arg"
+				if field == "handle" {
+					clause = "backend-wrong-handle"
+				}
+				if near == nil || (near.Clause == "backend-wrong-handle" && clause == "backend-arg") {
+					near = &Issue{clause, field, detail}
+				}
+			}
+		}
+		if near != nil {
+			is = append(is, *near)
+			continue
+		}
 		is = append(is, Issue{"backend-not-reached", exp[next].Method, fmt.Sprintf("backend never saw %s on handle %d", exp[next].Method, exp[next].On)})
 	}
 	return is
